@@ -163,6 +163,15 @@ CLAIMED = {
              'label placement, joined instructions) — every kind alone, all together and random subsets; each rendering must '
              'assemble to the canonical image.',
         note='Trusted: the renderer in vf/oracles/c18.py only applies the rewrites the statement lists.'),
+    'C19': dict(
+        category='fault_enumeration', design_ref='DESIGN.md §3 C19',
+        technique='runtime monitoring: single-fault catalogue over well-formed generated definitions + independent semantic-'
+                  'version model; exit status of real CLI runs',
+        text='Well-formed definitions of four styles (JSON and YAML) must be accepted; each applicable single fault of a 23-entry '
+             'catalogue must be rejected; min_version over a grid whose numeric and lexical orders differ and #require over five '
+             'operators x a version grid x matching / non-matching names are judged by an independent semver ordering.',
+        note='Trusted: the fault catalogue and semver model in vf/oracles/c19.py; running/minimum versions are read from '
+             'src/bespokeasm/__init__.py as data.'),
 }
 
 NOT_APPLICABLE = {}
